@@ -57,18 +57,57 @@ pub static LAST_PANIC: std::sync::Mutex<String> = std::sync::Mutex::new(String::
 fn main() {
     let r = std::panic::catch_unwind(real_main);
     if r.is_err() {
-        eprintln!("slh: the harness itself panicked: {}", LAST_PANIC.lock().map(|g| g.clone()).unwrap_or_default());
+        let msg = LAST_PANIC.lock().map(|g| g.clone()).unwrap_or_default();
+        eprintln!("slh: a panic escaped the per-case guards: {msg}");
+        // a panic that escaped the per-case guards while a case was running: attributed to that case (its request is the replay).
+        // Before the first case it is a defect of the harness itself (exit 2).
+        let snap = report::PROGRESS.lock().ok().and_then(|g| g.clone());
+        if let (Some((_, stream, req, evals)), Some((out, prop, tier, seed))) = (snap, RUN_INFO.lock().ok().and_then(|g| g.clone())) {
+            let f = serde_json::json!({"stream": stream, "index": evals, "request": [req], "impl": format!("panic: {msg}"), "model": "no panic",
+                "key": format!("panic:{stream}"), "what": format!("the code under test panicked outside a guarded call while a case of stream `{stream}` was running: {msg}")});
+            let j = serde_json::json!({"property": prop, "tier": tier, "seed": seed, "evaluations": evals, "distinct_nontrivial": 0, "rule": "report written after an escaped panic: the run was cut short",
+                "streams": {}, "histogram": {}, "samples": [], "n_divergences": 0, "divergences": [], "n_pred_failures": 1, "pred_failures": [f], "exhaustive": [],
+                "notes": ["the run ended with a panic that escaped the per-case guards; counts are those reached at that point"], "search_rounds": 0, "driver_requests": 0, "oracle_queries": 0});
+            let s = serde_json::to_string_pretty(&j).unwrap();
+            if out.is_empty() { println!("{s}"); } else { let _ = std::fs::write(&out, s); }
+            std::process::exit(1);
+        }
         std::process::exit(2);
     }
 }
 
+static RUN_INFO: std::sync::Mutex<Option<(String, String, String, u64)>> = std::sync::Mutex::new(None);
+
 fn real_main() {
     let o = parse();
+    if let Ok(mut g) = RUN_INFO.lock() { *g = Some((o.out.clone(), o.prop.clone(), o.tier.clone(), o.seed)); }
     // panics of the code under test are caught per case; keep the default hook quiet
     std::panic::set_hook(Box::new(|info| {
         // remember the last panic so that a panic of the HARNESS itself (not caught per case) can be reported
         if let Ok(mut g) = LAST_PANIC.lock() { *g = info.to_string(); }
     }));
+    // watchdog: a case that does not finish (an implementation call that never returns, a held lock) becomes a failure
+    {
+        let (out, prop, tier, seed) = (o.out.clone(), o.prop.clone(), o.tier.clone(), o.seed);
+        let limit: u64 = std::env::var("VERIF_STALL_SECS").ok().and_then(|v| v.parse().ok()).unwrap_or(if tier == "thorough" { 900 } else { 300 });
+        std::thread::spawn(move || loop {
+            std::thread::sleep(std::time::Duration::from_secs(5));
+            let snap = report::PROGRESS.lock().ok().and_then(|g| g.clone());
+            if let Some((t0, stream, req, evals)) = snap {
+                if t0.elapsed().as_secs() > limit {
+                    let f = serde_json::json!({"stream": stream, "index": evals, "request": [req], "impl": format!("no result after {limit} s"), "model": "the call returns",
+                        "key": format!("hang:{stream}"), "what": format!("a case of stream `{stream}` did not finish within {limit} s: a call of the code under test does not return (or holds a lock every later call waits for)")});
+                    let j = serde_json::json!({"property": prop, "tier": tier, "seed": seed, "evaluations": evals, "distinct_nontrivial": 0, "rule": "watchdog report: the run was cut short",
+                        "streams": {}, "histogram": {}, "samples": [], "n_divergences": 0, "divergences": [], "n_pred_failures": 1, "pred_failures": [f], "exhaustive": [],
+                        "notes": ["the harness was stopped by its watchdog; counts are those reached when the case stalled"], "search_rounds": 0, "driver_requests": 0, "oracle_queries": 0});
+                    let s = serde_json::to_string_pretty(&j).unwrap();
+                    if out.is_empty() { println!("{s}"); } else { let _ = std::fs::write(&out, s); }
+                    eprintln!("slh: watchdog: case stalled for more than {limit} s");
+                    std::process::exit(1);
+                }
+            }
+        });
+    }
     let mut drv = driver::Driver::spawn(&o.driver);
     let replay_lines: Option<Vec<String>> = o.replay.as_ref().map(|p| {
         let v: serde_json::Value = serde_json::from_str(&std::fs::read_to_string(p).expect("replay file")).expect("replay json");
